@@ -264,6 +264,10 @@ pub fn run(args: &[String]) {
         if out == "file" {
             h().set_clock(1000);
             h().reset_bt();
+            if sc["realclock"].as_bool().unwrap_or(false) {
+                // the real clock: age-based rotation happens while the threads run
+                h().real_clock();
+            }
             flw::set_error_channel(&errfile);
             let failfmt = sc["failfmt"].as_bool().unwrap_or(false);
             FAILFMT.store(failfmt, Ordering::SeqCst);
